@@ -2,6 +2,7 @@
 mod c12;
 mod c22;
 mod c23;
+mod c34;
 
 fn main() {
     let a: Vec<String> = std::env::args().collect();
@@ -10,6 +11,7 @@ fn main() {
         "c12" => c12::main(),
         "c22" => c22::main(),
         "c23" => c23::main(),
+        "c34" => c34::main(),
         _ => {
             eprintln!("usage: vfacts <c23|c22|c12|c34|c32> [options]");
             std::process::exit(2);
